@@ -1022,6 +1022,8 @@ def show(t, depth=0):
     if not isinstance(t, tuple) or not t or not isinstance(t[0], str):
         return repr(t)
     tag = t[0]
+    if len(t) == 1:
+        return f'<{tag}>'
     if tag == 'const':
         return repr(t[1]) if not isinstance(t[1], Fraction) else str(t[1])
     if tag == 'param':
@@ -1078,6 +1080,8 @@ def show(t, depth=0):
         o, c = ('(', ')') if tag == 'tuple' else ('[', ']')
         return o + ', '.join(show(x) for x in t[1]) + c
     if tag == 'dict':
+        if not isinstance(t[1], tuple) or any(not (isinstance(kv, tuple) and len(kv) == 2) for kv in t[1]):
+            return 'dict<' + ', '.join(show(x) if isinstance(x, tuple) else repr(x) for x in (t[1] if isinstance(t[1], tuple) else (t[1],))) + '>'
         return '{' + ', '.join(f'{k!r}: {show(v)}' for k, v in t[1]) + '}'
     if tag == 'table':
         names = {v[1] for k, v in t[1] if v[0] == 'col' and v[2] == k}
